@@ -797,6 +797,22 @@ func (e *Engine) schedule(done func() bool, fair bool) string {
 		t := e.picker.Pick(runnable, fair)
 		e.release(t)
 		stall = 0
+		if !e.plan.Flags.Race && !e.closed && e.sim.Step%4 == 0 {
+			e.checkAccounting()
+		}
+	}
+}
+
+// checkAccounting: RemainingCost() always equals MaxCost minus the sum of the
+// accounted costs (C03) - not only at quiescent points. Runs on the scheduler
+// goroutine between two steps: every task is parked outside the policy lock.
+func (e *Engine) checkAccounting() {
+	used, max, sum, _ := e.api.PolicyState()
+	if used != sum {
+		e.violate("C03", "used-sum", fmt.Sprintf("step %d: used=%d differs from the sum of accounted costs %d", e.sim.Step, used, sum), 0)
+	}
+	if rem := e.api.RemainingCost(); rem != e.api.MaxCost()-sum && max == e.api.MaxCost() {
+		e.violate("C03", "remaining", fmt.Sprintf("step %d: RemainingCost()=%d but MaxCost()-sum=%d-%d", e.sim.Step, rem, max, sum), 0)
 	}
 }
 
